@@ -1,5 +1,7 @@
 #!/bin/bash
-# Run every registered check (quick tier, generated search only) against every seeded change; 4 seeds at a time.
+# Run every registered check (quick tier, generated search only) against every seeded change.
+# Phase 1: each change against the check of its own property (the row that matters most, done first);
+# phase 2: the remaining checks. MATRIX_PAR seeds at a time (default 4).
 # usage: tools/matrix.sh <out file> [seed ids...]
 out=$1; shift
 seeds="$@"
@@ -7,5 +9,11 @@ here=$(cd $(dirname $0)/.. && pwd)
 [ -z "$seeds" ] && seeds=$(ls $here/seeded | grep -v MATRIX)
 checks="C01 C02 C03 C04 C05 C06 C07 C08 C09 C10 C11 C12 C13 C14 C15 C16 C17 C18 C19 C20"
 : > $out
-echo $seeds | tr ' ' '\n' | xargs -P ${MATRIX_PAR:-4} -I{} $here/tools/run_seed.py {} quick ${MATRIX_CHECKS:-$checks} >> $out 2>&1
+own() { /venv/bin/python -c "import json,sys; print(json.load(open('$here/seeded/$1/meta.json'))['property'])"; }
+export -f own
+export here
+echo $seeds | tr ' ' '\n' | xargs -P ${MATRIX_PAR:-4} -I{} bash -c 'SEED_RUN_TAG=_mx1 $here/tools/run_seed.py {} quick $(own {})' >> $out 2>&1
+echo MATRIX-OWN-DONE >> $out
+[ -n "$MATRIX_OWN_ONLY" ] && exit 0
+echo $seeds | tr ' ' '\n' | xargs -P ${MATRIX_PAR:-4} -I{} bash -c 'o=$(own {}); SEED_RUN_TAG=_mx2 $here/tools/run_seed.py {} quick $(echo '"$checks"' | tr " " "\n" | grep -v $o | tr "\n" " ")' >> $out 2>&1
 echo MATRIX-DONE >> $out
